@@ -4,6 +4,7 @@ import (
 	"bytes"
 	"errors"
 	"fmt"
+	"math"
 	"strconv"
 	"strings"
 
@@ -40,7 +41,8 @@ func getScoreRange(left []byte, right []byte) (float64, float64, error) {
 			return leftRange, rightRange, errInvalidRange
 		}
 		if isLOpen {
-			leftRange++
+			// the smallest score above the exclusive bound
+			leftRange = math.Nextafter(leftRange, math.Inf(1))
 		}
 	}
 	rangeD = right
@@ -60,7 +62,8 @@ func getScoreRange(left []byte, right []byte) (float64, float64, error) {
 			return leftRange, rightRange, errInvalidRange
 		}
 		if isROpen {
-			rightRange--
+			// the largest score below the exclusive bound
+			rightRange = math.Nextafter(rightRange, math.Inf(-1))
 		}
 
 	}
